@@ -22,6 +22,63 @@ def zones():
     return _Z
 
 
+# ---- equal-but-distinct tzinfo objects (CPython compares/subtracts such operands in UTC, not on the wall clock)
+DISTINCT_ZONE_BASE = 10
+_TAGS = {}        # id(tzinfo) -> "a<zone>.<obj>"
+_BY_TAG = {}      # (zone, obj) -> tzinfo (kept alive so that ids stay unique)
+
+
+def distinct_factories():
+    """callables that return a FRESH tzinfo object of one zone on every call; zone id = 10 + index"""
+    from dateutil import tz
+    ny = "/usr/share/zoneinfo/America/New_York"
+    return [
+        ("tzlocal[TZ=America/New_York]", lambda: tz.tzlocal()),
+        ("tzfile(America/New_York)", lambda: tz.tzfile(ny)),
+        ("gettz.nocache(America/New_York)", lambda: tz.gettz.nocache("America/New_York")),
+        ("tzoffset.instance(+1h)", lambda: tz.tzoffset.instance("X", 3600)),
+        ("tzstr.instance(EST5EDT,M3.2.0,M11.1.0)", lambda: tz.tzstr.instance("EST5EDT,M3.2.0,M11.1.0")),
+        ("tzstr.instance(EST5EDT) / tzrange(EST,-18000,EDT)", None),     # obj 1 = tzstr, obj 2 = the equal tzrange
+        ("tzfile(Europe/London)", lambda: tz.tzfile("/usr/share/zoneinfo/Europe/London")),
+    ]
+
+
+def distinct_tz(zone, obj):
+    """the tzinfo object registered under (zone, obj); created on first use"""
+    key = (zone, obj)
+    if key not in _BY_TAG:
+        from dateutil import tz
+        name, f = distinct_factories()[zone - DISTINCT_ZONE_BASE]
+        if f is None:
+            z = tz.tzstr.instance("EST5EDT") if obj % 2 == 1 else tz.tzrange("EST", -18000, "EDT")
+        else:
+            z = f()
+        _BY_TAG[key] = z
+        _TAGS[id(z)] = "a%d.%d" % (zone, obj)
+    return _BY_TAG[key]
+
+
+class process_tz(object):
+    """pin the process time zone (tzlocal reads it when constructed AND when asked for an offset)"""
+
+    def __init__(self, name):
+        self.name = name
+
+    def __enter__(self):
+        import time
+        self.old = os.environ.get("TZ")
+        os.environ["TZ"] = self.name
+        time.tzset()
+
+    def __exit__(self, *a):
+        import time
+        if self.old is None:
+            os.environ.pop("TZ", None)
+        else:
+            os.environ["TZ"] = self.old
+        time.tzset()
+
+
 def exc_kind(ex):
     for k in (AssertionError, OverflowError, IndexError, TypeError, ValueError, ZeroDivisionError, AttributeError):
         if isinstance(ex, k):
@@ -106,7 +163,7 @@ def kind_of(x):
     for i, z in enumerate(zones()):
         if x.tzinfo is z:
             return "a%d" % i
-    return "a?"
+    return _TAGS.get(id(x.tzinfo), "a?")
 
 
 def t_wire(x):
@@ -127,7 +184,13 @@ def parse_t(tokens):
     v = [int(t) for t in tokens[1:8]]
     if k == "d":
         return datetime.date(v[0], v[1], v[2])
-    tz = None if k == "n" else zones()[int(k[1:])]
+    if k == "n":
+        tz = None
+    elif "." in k:
+        zone, obj = k[1:].split(".")
+        tz = distinct_tz(int(zone), int(obj))
+    else:
+        tz = zones()[int(k[1:])]
     return datetime.datetime(*v, tzinfo=tz)
 
 
@@ -289,6 +352,10 @@ def g_time(rng):
         return 23, 59, 59, 999999
     if r < 0.55:
         return 12, 0, 0, 0
+    if r < 0.67:
+        # the time of day lives in exactly one field (only us / only seconds / only minutes / only hours)
+        return rng.choice([(0, 0, 0, rng.choice([1, 250000, 999999])), (0, 0, rng.randint(1, 59), 0),
+                           (0, rng.randint(1, 59), 0, 0), (rng.randint(1, 23), 0, 0, 0)])
     return (rng.randint(0, 23), rng.randint(0, 59), rng.randint(0, 59), rng.choice([0, 1, 999999, rng.randint(0, 999999)]))
 
 
